@@ -69,6 +69,37 @@ theorem mathlib_Laws (hq : Nat.Prime q) (hord : ∀ n : Nat, n • base = 0 ↔ 
   kwp_len := hkl
   kwp_inv := hki
 
+/-- `Laws` for the real curve group WITH the belt model (belt-hash, belt-WBL, belt-KWP of Bee2V.C01 as used by the
+driver): the belt hypotheses are theorems (`belt_hash_len` from C01's `belt_hash_length`, `belt_kwp_laws`); what
+remains is: q prime and the order of the base point, cofactor 1, p ≡ 3 (mod 4) and the sizes -/
+theorem mathlib_Laws_belt (oidOk : Bytes → Bool) (hq : Nat.Prime q) (hord : ∀ n : Nat, n • base = 0 ↔ q ∣ n)
+    (hgen : ∀ P : (Wc A B).Point, ∃ n : Nat, P = n • base) (hp4 : p % 4 = 3)
+    (hl0 : 0 < l) (hl8 : l % 8 = 0) (hl : l ≤ 256)
+    (hq_lo : 2 ^ (2 * l - 1) < q) (hq_hi : q < 2 ^ (2 * l)) (hp_hi : p < 2 ^ (2 * l)) :
+    Laws (mathlibCtx p A B l q base oidOk beltHash beltWbl beltWbl beltKwpD) :=
+  mathlib_Laws p A B l q base oidOk beltHash beltWbl beltWbl beltKwpD hq hord hgen hp4 hl0 hl8 hl hq_lo hq_hi hp_hi
+    belt_hash_len (fun θ x h => (belt_kwp_laws θ x h).1) (fun θ x _ h => (belt_kwp_laws θ x h).2)
+
+/-- bignSign on the real curve with the belt model: complete and equal to the standard's value; hypotheses: q prime
+and the order of G, cofactor 1, p ≡ 3 (mod 4), sizes — nothing about belt -/
+theorem sign_complete_curve_belt (oidOk : Bytes → Bool) (hq : Nat.Prime q) (hord : ∀ n : Nat, n • base = 0 ↔ q ∣ n)
+    (hgen : ∀ P : (Wc A B).Point, ∃ n : Nat, P = n • base) (hp4 : p % 4 = 3)
+    (hl0 : 0 < l) (hl8 : l % 8 = 0) (hl : l ≤ 256)
+    (hq_lo : 2 ^ (2 * l - 1) < q) (hq_hi : q < 2 ^ (2 * l)) (hp_hi : p < 2 ^ (2 * l))
+    {oid Hb priv : Bytes} (ho : oidOk oid = true) (hH : Hb.length = l / 4)
+    (hd0 : 0 < leNat priv) (hdq : leNat priv < q) (tape : Bytes) :
+    (∀ rest, randNZMod (mathlibCtx p A B l q base oidOk beltHash beltWbl beltWbl beltKwpD) tape = (none, rest) →
+      sign (mathlibCtx p A B l q base oidOk beltHash beltWbl beltWbl beltKwpD) oid Hb priv tape = (.badRng, [], rest)) ∧
+    (∀ k rest, randNZMod (mathlibCtx p A B l q base oidOk beltHash beltWbl beltWbl beltKwpD) tape = (some k, rest) →
+      sign (mathlibCtx p A B l q base oidOk beltHash beltWbl beltWbl beltKwpD) oid Hb priv tape =
+        (.ok, specSig (mathlibCtx p A B l q base oidOk beltHash beltWbl beltWbl beltKwpD) oid Hb (leNat priv) k, rest) ∧
+      (specSig (mathlibCtx p A B l q base oidOk beltHash beltWbl beltWbl beltKwpD) oid Hb (leNat priv) k).length
+        = l / 4 + l / 4 / 2 ∧
+      verify (mathlibCtx p A B l q base oidOk beltHash beltWbl beltWbl beltKwpD) oid Hb
+        (specSig (mathlibCtx p A B l q base oidOk beltHash beltWbl beltWbl beltKwpD) oid Hb (leNat priv) k)
+        (pubOf (mathlibCtx p A B l q base oidOk beltHash beltWbl beltWbl beltKwpD) (leNat priv)) = .ok) :=
+  sign_complete (mathlib_Laws_belt p A B l q base oidOk hq hord hgen hp4 hl0 hl8 hl hq_lo hq_hi hp_hi) ho hH hd0 hdq tape
+
 end laws
 
 /-! ### B2. bridges to the C06 models of ec.c over the table of `ecpCreateJ` -/
